@@ -131,9 +131,11 @@ def _external(smt2, cmd, timeout_s):
 
 def solve_one(ob, timeout_s, seed, use_fallback=True):
     t0 = time.time()
-    s = z3.Solver()
+    tac = getattr(ob, 'tactic', None)
+    s = z3.Tactic(tac).solver() if tac else z3.Solver()
     s.set('timeout', int(timeout_s * 1000))
-    s.set('random_seed', seed % (2 ** 30))
+    if not tac:
+        s.set('random_seed', seed % (2 ** 30))
     for h in ob.hyps:
         s.add(h)
     if ob.expect == 'sat':
@@ -164,6 +166,8 @@ def solve_one(ob, timeout_s, seed, use_fallback=True):
     model = None
     if ans == 'sat' and backend == 'z3-5.1':
         m = s.model()
+        if ob.expect == 'valid' and ob.model:
+            m = _refine_model(s, m, ob) or m
         model = {k: eval_spec(m, v) for k, v in ob.model.items()}
     if ob.expect == 'valid':
         status = {'unsat': 'proved', 'sat': 'failed'}.get(ans, 'unknown')
@@ -173,6 +177,81 @@ def solve_one(ob, timeout_s, seed, use_fallback=True):
         status = {'sat': 'proved', 'unsat': 'failed'}.get(ans, 'unknown')
     detail = s.reason_unknown() if ans == 'unknown' and backend == 'z3-5.1' else ''
     return Result(status, backend, dt, model, detail)
+
+
+def _float_terms(spec, m, out, lens):
+    kind = spec[0]
+    if kind == 'float':
+        out.append(spec[2])
+    elif kind in ('tuple', 'list'):
+        for x in spec[1]:
+            _float_terms(x, m, out, lens)
+    elif kind == 'record':
+        for x in spec[2].values():
+            _float_terms(x, m, out, lens)
+    elif kind == 'carr':
+        for c in spec[3]:
+            if c is not None:
+                _float_terms(c, m, out, lens)
+    elif kind == 'arr':
+        _, elem, dtype, val, tag, shape, dims = spec
+        shp = []
+        for x in shape:
+            v = m.eval(x, model_completion=True)
+            shp.append(v.as_long() if z3.is_int_value(v) else None)
+            if not z3.is_int_value(x):
+                lens.append(x)
+        if elem == 'float' and all(isinstance(x, int) for x in shp):
+            if len(shp) == 1:
+                for i in range(min(max(shp[0], 0), CELL_CAP)):
+                    out.append(z3.Select(val, z3.IntVal(i)))
+            elif len(shp) == 2:
+                for i in range(min(max(shp[0], 0), CELL_CAP)):
+                    for j in range(min(max(shp[1], 0), 16)):
+                        out.append(z3.Select(val, z3.IntVal(i), z3.IntVal(j)))
+
+
+def _refine_model(s, m, ob):
+    """look for a counter-model whose float inputs are small integers (exactly representable, so the
+    replay on the real code sees exactly the solver's input) and whose arrays are short"""
+    try:
+        terms, lens = [], []
+        for spec in ob.model.values():
+            _float_terms(spec, m, terms, lens)
+        if not terms and not lens:
+            return None
+        s.push()
+        s.set('timeout', 10000)
+        for ln in lens:
+            cur = m.eval(ln, model_completion=True)
+            if z3.is_int_value(cur):
+                s.add(ln <= max(cur.as_long(), 0))
+        for t in terms:
+            s.add(z3.IsInt(t), t >= -64, t <= 64)
+        r = s.check()
+        if str(r) == 'sat':
+            m2 = s.model()
+            s.pop()
+            return m2
+        s.pop()
+        # second try: quarter-integers
+        s.push()
+        for ln in lens:
+            cur = m.eval(ln, model_completion=True)
+            if z3.is_int_value(cur):
+                s.add(ln <= max(cur.as_long(), 0))
+        for t in terms:
+            s.add(z3.IsInt(t * 4), t >= -1024, t <= 1024)
+        r = s.check()
+        m2 = s.model() if str(r) == 'sat' else None
+        s.pop()
+        return m2
+    except Exception:
+        try:
+            s.pop()
+        except Exception:
+            pass
+        return None
 
 
 # ---------------------------------------------------------------------- pool
